@@ -273,6 +273,12 @@ fn materialize(env: &mut Env, st: &State, pkg: &Files) -> bool {
         return false;
     }
     write_sys(&st.sys);
+    // bystanders: files next to the four locations that the tool never installed (a package tree beside the eBPF object, another
+    // configuration file, another unit, another executable): "no command alters any file outside those locations"
+    write_file(Path::new("/usr/lib/azure-proxy-agent/package/keep.txt"), b"not installed by the setup tool\n", 0o644);
+    write_file(Path::new("/etc/azure/other.conf"), b"other = 1\n", 0o644);
+    write_file(Path::new("/usr/lib/systemd/system/other-agent.service"), b"[Unit]\nDescription=other\n", 0o644);
+    write_file(Path::new("/usr/sbin/azure-proxy-agent-helper"), b"#!/bin/sh\n", 0o755);
     // setup folder: package + backup as left by the history so far; logs of earlier commands removed
     if let Ok(rd) = fs::read_dir(&env.tool_dir) {
         for e in rd.flatten() {
